@@ -50,63 +50,61 @@ def _run(binary, args, timeout):
     return None, p.stdout.strip()[-300:]
 
 
-def _searches(prop, violation):
-    ob = (violation or {}).get("obligation", "")
-    res = []
-    if prop in HISTORY_PROPS or ob.startswith("B1/"):
-        res.append("history")
-    if prop in NAME_PROPS or ob.startswith("B3/"):
-        res.append("names")
-    if prop in PAGING_PROPS or "Paging" in ob or "list_" in ob:
-        res.append("paging")
-    return res
+# which bounded searches stand in for the parts of each property that are out of the deductive verifier's reach
+# (async fan-out, actor glue, iterator-adapter list bodies, gRPC plumbing): (command, quick args, thorough args, bound)
+SEARCHES = {
+    "history":   (["history", "{seed}", 200, 25], ["history", "{seed}", 3000, 40],
+                  "random histories of publish/pull/ack/modify/advance on one subscription (+ a second one on the same topic), paused clock"),
+    "lifecycle": (["lifecycle", "{seed}", 300, 25], ["lifecycle", "{seed}", 4000, 40],
+                  "random create/delete/publish histories over 2 topic names x 3 subscription names, incl. racing creates and held topic handles"),
+    "order":     (["order", 40], ["order", 400], "2-4 concurrent publishers x 3 messages on a 2-thread runtime, 2 subscriptions"),
+    "names":     (["names", 3], ["names", 5], "all strings = stem + suffix over {p,t,/,s,e-acute,-} up to the given suffix length, 24 stems"),
+    "paging":    (["paging", 7], ["paging", 12], "page walks over 0,1,2,n resources in 2 projects, 11 page sizes x 6 start offsets, 3 list operations"),
+}
+BY_PROP = {
+    "C01": ["history", "lifecycle"], "C02": ["history"], "C03": ["history"], "C04": ["history"], "C05": ["history"],
+    "C08": ["order", "history"], "C09": ["lifecycle"], "C10": ["lifecycle"], "C11": ["lifecycle"],
+    "C13": ["paging", "lifecycle"], "C15": ["history"], "C17": ["names"], "C18": ["names"],
+}
+
+
+def standin(prop, HERE, REPO, tier="quick", seed=0):
+    """runs the bounded searches that serve `prop`; returns {"status", "runs", "witness"}; a witness counts for
+    `prop` only when the oracle tagged it with that property"""
+    t0 = time.time()
+    kinds = BY_PROP.get(prop, [])
+    if not kinds:
+        return {"status": "none", "runs": [], "witness": None}
+    binary, err = _build(HERE, REPO)
+    if binary is None:
+        return {"status": "build-failed", "detail": err, "runs": [], "witness": None}
+    runs, witness, other = [], None, None
+    for kind in kinds:
+        q, th, bound = SEARCHES[kind]
+        args = [str(a).replace("{seed}", str(seed + 1)) for a in (th if tier == "thorough" else q)]
+        w, out = _run(binary, args, 600 if tier == "thorough" else 120)
+        runs.append({"search": " ".join(args), "bound": bound, "result": ("WITNESS property=%s" % w.get("property")) if w else out})
+        if w and w.get("property") == prop and witness is None:
+            witness = w
+        elif w and other is None:
+            other = w
+    return {"status": "witness" if witness else "clean", "runs": runs, "witness": witness, "other_property_witness": other,
+            "wall_s": round(time.time() - t0, 1)}
 
 
 def find_witness(prop, violation, HERE, REPO):
-    binary, err = _build(HERE, REPO)
-    if binary is None:
-        return None
     seed = int(os.environ.get("VERIF_SEED", "0") or 0)
-    for kind in _searches(prop, violation):
-        if kind == "history":
-            for s in range(seed + 1, seed + 5):
-                w, _ = _run(binary, ["history", s, 400, 30], 120)
-                if w:
-                    return w
-        elif kind == "names":
-            w, _ = _run(binary, ["names", 4], 120)
-            if w:
-                return w
-        elif kind == "paging":
-            w, _ = _run(binary, ["paging", 7], 120)
-            if w:
-                return w
+    for s in range(seed, seed + 3):
+        r = standin(prop, HERE, REPO, "quick", s)
+        if r.get("witness"):
+            return r["witness"]
+        if r.get("other_property_witness") and s == seed + 2:
+            return r["other_property_witness"]
     return None
 
 
 def crosscheck(prop, HERE, REPO, seed):
-    """thorough tier: run the executable mirrors of the contracts against the real crate"""
-    t0 = time.time()
-    binary, err = _build(HERE, REPO)
-    if binary is None:
-        return {"status": "build-failed", "detail": err}
-    runs = []
-    witness = None
-    for kind in _searches(prop, None):
-        if kind == "history":
-            for s in range(seed + 1, seed + 4):
-                w, out = _run(binary, ["history", s, 600, 40], 300)
-                runs.append({"cmd": "history %d 600 40" % s, "result": "WITNESS" if w else out})
-                witness = witness or w
-        elif kind == "names":
-            w, out = _run(binary, ["names", 5], 300)
-            runs.append({"cmd": "names 5", "result": "WITNESS" if w else out})
-            witness = witness or w
-        elif kind == "paging":
-            w, out = _run(binary, ["paging", 9], 300)
-            runs.append({"cmd": "paging 9", "result": "WITNESS" if w else out})
-            witness = witness or w
-    return {"status": "divergence" if witness else "agree", "runs": runs, "witness": witness, "wall_s": round(time.time() - t0, 1)}
+    return standin(prop, HERE, REPO, "thorough", seed)
 
 
 def replay(path, HERE, REPO):
@@ -122,6 +120,10 @@ def replay(path, HERE, REPO):
             return 2
         if w.get("kind") == "history":
             got, out = _run(binary, ["run-history", w.get("ack_deadline_s", 10), json.dumps(w["ops"])], 120)
+        elif w.get("kind") == "lifecycle":
+            got, out = _run(binary, ["run-lifecycle", json.dumps(w["ops"])], 120)
+        elif w.get("kind") == "order":
+            got, out = _run(binary, ["order", 200], 300)
         elif w.get("kind", "").startswith("name"):
             got, out = _run(binary, ["names", 4], 120)
         else:
